@@ -217,6 +217,11 @@ def single_case(name, acc: Acc):
         "cli_v1_emptyfile": _obs(sc, {name: v1}, {}),
         "file_v1_elsewhere": _obs(sc, {}, {name: v1}, config_name="cfgdir/settings.json"),
     }
+    # the file gives the option its "empty" value (an empty list / object, false): still the file's value
+    neutral = {"list": [], "bool": False, "json": {}}.get(kind)
+    if neutral is not None:
+        runs["file_neutral"] = _obs(sc, {}, {name: neutral})
+        runs["cli_v1_file_neutral"] = _obs(sc, {name: v1}, {name: neutral})
     for label, (err, o, b) in runs.items():
         acc.case(nontrivial_key=(name, label), outcome=json.dumps([o, b], sort_keys=True, default=str))
         if err:
@@ -239,6 +244,8 @@ def single_case(name, acc: Acc):
     same("cli_equals_file_outside_root_dir", "cli_v1", "file_v1_elsewhere")
     same("file_wins", "cli_v1_file_v2", "file_v2")
     same("absent_in_file_keeps_cli", "cli_v1_emptyfile", "cli_v1")
+    if neutral is not None:
+        same("file_wins_with_empty_value", "cli_v1_file_neutral", "file_neutral")
     # non-vacuity: the option has an observable effect at all
     if not diff(runs["default"][1], runs["cli_v1"][1]) and not diff(runs["default"][2], runs["cli_v1"][2]):
         acc.count("no_observable_effect")
